@@ -3,10 +3,14 @@
 early return), and the only size limit of the stage must stay beyond every input of the property's domain:
 `INSTRUCTION_STREAM_MAX_SIZE = u32::MAX` (a 4 GiB input); the disassembler's own BytecodeTooLarge arises only from
 `u32::try_from(offset)`.  -> coq/gen/DisasmLimits.v"""
+import hashlib
 import os
 import re
 
 from translate import HEADER, match_brace, norm, read, write_if_changed
+
+# sha256[:16] of the normalised text of `disassemble` with its byte match elided, as modelled by coq/Disasm.v
+DISASSEMBLE_FRAME_PINS = {"c0fc134180fe85cb"}
 
 EXPECTED_BODY = ("let instructions=Rc::new(disassembler::disassemble(value)?);let result=Self{instructions};"
                  "assert_eq!(result.as_bytecode().as_slice(),value);Ok(result)")
@@ -41,6 +45,25 @@ def step_limits(repo, out, consts):
     n_too_large = len(re.findall(r"BytecodeTooLarge", dis))
     if n_too_large != 1 or not re.search(r"u32::try_from\(offset\)\s*\.map_err\(\|_\|\s*Error::BytecodeTooLarge", dis):
         problems.append("disassembler.rs: BytecodeTooLarge must arise only from u32::try_from(offset) (found %d uses)" % n_too_large)
+    # the scan itself: the text of `disassemble` around the byte `match` (whose arms T1 reads one by one) is the text
+    # Disasm.v was written from -- a new early return, a content check or a different treatment of the end of the input
+    # changes it
+    m = re.search(r"pub fn disassemble\s*\(", dis)
+    if not m:
+        problems.append("disassembler.rs: fn disassemble not found")
+    else:
+        b = dis.find("{", m.end())
+        body = re.sub(r"//[^\n]*", "", dis[b:match_brace(dis, b)])
+        best = None
+        for mm in re.finditer(r"\bmatch\b[^{;]*\{", body):
+            e = match_brace(body, mm.end() - 1)
+            if best is None or e - mm.start() > best[1] - best[0]:
+                best = (mm.start(), e)
+        frame = body if best is None else body[:best[0]] + "match{ARMS}" + body[best[1]:]
+        d = hashlib.sha256(norm(frame).encode()).hexdigest()[:16]
+        if d not in DISASSEMBLE_FRAME_PINS:
+            problems.append("disassembler.rs: the text of `disassemble` around its byte match changed (digest %s, modelled: %s): %s"
+                            % (d, ", ".join(sorted(DISASSEMBLE_FRAME_PINS)), norm(frame)[:400]))
     s = HEADER + "From Coq Require Import NArith.\nOpen Scope N_scope.\n"
     s += "Definition instruction_stream_max_size : N := %d.\n" % (limit if limit is not None else 0)
     write_if_changed(os.path.join(out, "DisasmLimits.v"), s)
